@@ -106,14 +106,12 @@ theorem i64_le_s_ok : RelRow64 .le_s i64_le_s := by
   x64_simp
   x64_finish
 
-theorem i64_ctz_illformed : Illformed i64_ctz := by
+theorem i64_ctz_ok : UnRow64 .ctz i64_ctz := by
   intro s
   obtain ⟨rax, rcx, rdx, rbx, rsi, rdi, r8, r9, r10, r11, r12, r13, r14, r15, flags, slots, stk⟩ := s
   unfold i64_ctz
   x64_simp
-
-/-- the full statement for `i64.ctz` is false of the emitted template (it is not even encodable: GNU as rejects it) -/
-theorem i64_ctz_full_false : ¬ UnRow64 .ctz i64_ctz := illformed_not_un64 _ i64_ctz_illformed
+  x64_finish
 
 theorem select_i64_ok : SelectRow64 select_i64 select_i64_c := by
   refine ⟨by decide, by decide, by decide, ?_⟩
